@@ -14,6 +14,7 @@ import (
 type RecvMsg struct {
 	rtmpc.Msg
 	Step int
+	Ms   int64
 }
 
 // SentUnit is something a publisher sent, with the bookkeeping the oracles need to reason about
@@ -24,6 +25,8 @@ type SentUnit struct {
 	QueuedStep    int
 	DeliveredStep int // step at which the last byte was handed to lal (-1: not yet)
 	ProcessedStep int // first step at which lal's reader was idle again after delivery (-1: not yet)
+	DeliveredMs   int64
+	ProcessedMs   int64
 }
 
 type rtmpRole int
@@ -137,10 +140,10 @@ func (a *RtmpClient) onMsg(m rtmpc.Msg) {
 	step := a.K.Step()
 	switch m.Type {
 	case rtmpc.TypeAudio, rtmpc.TypeVideo, rtmpc.TypeDataAmf0:
-		a.Recv = append(a.Recv, RecvMsg{m, step})
+		a.Recv = append(a.Recv, RecvMsg{m, step, a.K.NowMs()})
 		return
 	case rtmpc.TypeCmdAmf0:
-		a.Ctrl = append(a.Ctrl, RecvMsg{m, step})
+		a.Ctrl = append(a.Ctrl, RecvMsg{m, step, a.K.NowMs()})
 		name, n, ok := rtmpc.AmfReadString(m.Payload)
 		if !ok {
 			return
@@ -177,7 +180,7 @@ func (a *RtmpClient) onMsg(m rtmpc.Msg) {
 			}
 		}
 	default:
-		a.Ctrl = append(a.Ctrl, RecvMsg{m, step})
+		a.Ctrl = append(a.Ctrl, RecvMsg{m, step, a.K.NowMs()})
 	}
 }
 
@@ -251,9 +254,11 @@ func (a *RtmpClient) Observe() {
 	for _, u := range a.Sent {
 		if u.DeliveredStep < 0 && u.EndOff <= in {
 			u.DeliveredStep = step
+			u.DeliveredMs = a.K.NowMs()
 		}
 		if u.DeliveredStep >= 0 && u.ProcessedStep < 0 && idle && u.EndOff <= a.Conn.TotalConsumed {
 			u.ProcessedStep = step
+			u.ProcessedMs = a.K.NowMs()
 		}
 	}
 	if a.joinEndOff > 0 {
